@@ -38,6 +38,9 @@ type c12Case struct {
 	Kind    string    `json:"kind"`
 	Clients [][]c12Op `json:"clients"`
 	Spin    []int     `json:"spin"`
+	// Repeat > 1 runs the workload that many times on fresh locations (used
+	// by reproducers of schedule-dependent findings).
+	Repeat int `json:"repeat,omitempty"`
 }
 
 var c12FactIds = []string{"f1", "f2"}
@@ -171,6 +174,19 @@ func c12Step(st interface{}, in interface{}, out interface{}) (bool, interface{}
 	return false, s
 }
 
+// c12ModelFreeEvents accepts any result for an event: used to tell whether a
+// history is non-linearizable only because of an event's result.
+var c12ModelFreeEvents = porcupine.Model{
+	Init: func() interface{} { return c12State{map[string]string{}, map[string]string{}, map[string]bool{}} },
+	Step: func(st interface{}, in interface{}, out interface{}) (bool, interface{}) {
+		if in.(c12In).K == "event" {
+			return out.(c12Out).Err == "", st
+		}
+		return c12Step(st, in, out)
+	},
+	Equal: func(a, b interface{}) bool { return a.(c12State).key() == b.(c12State).key() },
+}
+
 var c12Model = porcupine.Model{
 	Init:  func() interface{} { return c12State{map[string]string{}, map[string]string{}, map[string]bool{}} },
 	Step:  c12Step,
@@ -251,6 +267,17 @@ func runC12(c c12Case) *vlib.Outcome {
 		o.Discard = true
 		return o
 	}
+	n := c.Repeat
+	if n < 1 {
+		n = 1
+	}
+	for i := 0; i < n && !o.Failed(); i++ {
+		runC12Once(c, o)
+	}
+	return o
+}
+
+func runC12Once(c c12Case, o *vlib.Outcome) *vlib.Outcome {
 	w := newWorld(c.Kind, nil, o)
 	loc, err := w.open("L")
 	if err != nil {
@@ -311,7 +338,9 @@ func runC12(c c12Case) *vlib.Outcome {
 			}
 		}
 	}
-	o.NonTrivial = overlapSameId
+	if overlapSameId {
+		o.NonTrivial = true
+	}
 	// final reads are part of the history
 	end := time.Since(t0).Nanoseconds() + 1
 	for i, id := range c12FactIds {
@@ -325,6 +354,12 @@ func runC12(c c12Case) *vlib.Outcome {
 	res, info := porcupine.CheckOperationsVerbose(c12Model, history, 20*time.Second)
 	_ = info
 	if res == porcupine.Illegal {
+		// Event processing is not atomic (known finding): is the history
+		// explained once the events' results are left unconstrained?
+		if r2 := porcupine.CheckOperations(c12ModelFreeEvents, history); r2 && vlib.KnownActive("event-dispatch-not-atomic") {
+			o.Known = append(o.Known, "event-dispatch-not-atomic")
+			return o
+		}
 		var rows []string
 		sort.Slice(history, func(i, j int) bool { return history[i].Call < history[j].Call })
 		for _, h := range history {
